@@ -170,6 +170,29 @@ def run(ctx):
                     if bad <= 5:
                         ctx.violation('an amount string with a denominator symbol is not parsed to the exact amount',
                                       {'op': 'parse_symbol', 'amount': amount, 'network': net, 'observed': got, 'expected_satoshi': int(want)})
+    # ---- a NUMBER together with a denominator argument (symbol or numeric): Value(q, 'm') is q thousandths of a coin, exactly ------------
+    for den, sym in dens:
+        fden = Fraction(str(den)) if den < 1 else Fraction(int(den))
+        unit_sat = fden * 10 ** 8                                   # satoshi per one unit of this denominator (bitcoin)
+        for q in [1, 5, 10, rng.randrange(1, 1000)]:
+            want = Fraction(q) * unit_sat
+            if want.denominator != 1 or want > 21 * 10 ** 14:
+                per = unit_sat.denominator
+                q = q * per
+                want = Fraction(q) * unit_sat
+                if want.denominator != 1 or want > 21 * 10 ** 14:
+                    continue
+            for arg in ([sym, den] if sym else [den]):
+                ctx.evals += 1
+                ctx.count('number-with-denominator:' + (sym or 'unit'))
+                try:
+                    got = Value(q, arg).value_sat
+                except Exception as ex:
+                    got = 'raise:%s' % type(ex).__name__
+                if got != int(want):
+                    bad += 1
+                    if bad <= 8:
+                        ctx.violation('a number with a denominator argument is not that many units', {'op': 'number-with-denominator', 'amount': q, 'denominator': repr(arg), 'observed': got, 'expected_satoshi': int(want)})
     # ---- codes that are no currency of the library are refused; amounts handed to a transaction as text or Value are coins ----------
     from bitcoinlib.transactions import Transaction, Output
     for code_ in ('USD', 'EUR', 'XYZ', 'mUSD', 'BTCX', 'kXYZ'):
